@@ -142,6 +142,118 @@ class World(object):
             ev.append(('tfinal2', live[1], live[0]))
         return ev
 
+    def handler(self, ev):
+        '''ledger update now, the real handler call as a closure (for races)'''
+        self.trace.append(ev)
+        real_observe = self.observe
+        self.observe = lambda *a: None
+        calls = list()
+        s     = self.s
+        # record instead of call: wrap the entry points apply() uses
+        names = ['work_cb', '_control_cb', '_base_state_cb']
+        saved = {n: getattr(s, n) for n in names}
+        for n in names:
+            setattr(s, n, (lambda n_: lambda *a: calls.append((n_, a)))(n))
+        try:
+            self.trace.pop()
+            self.apply(ev)
+        finally:
+            for n in names:
+                delattr(s, n)
+            self.observe = real_observe
+        def run():
+            for n, a in calls:
+                getattr(s, n)(*a)
+        return run
+
+    def observe_race(self, ev_a, ev_b):
+        '''end-state clauses which hold for either order of two events'''
+        b      = self.before
+        sched  = self.scn['sched']
+        ql     = self.net.q_log
+        site   = '%s+%s' % (ev_a[0], ev_b[0])
+        added_any = b['added'] | self.added
+        while self.n_q < len(ql):
+            qname, things = ql[self.n_q]
+            self.n_q += 1
+            if qname != rpc.TMGR_STAGING_INPUT_QUEUE:
+                continue
+            for t in things:
+                uid, pid = t['uid'], t.get('pilot')
+                self.push_n[uid] += 1
+                if self.push_n[uid] > 1:
+                    raise Violation('race-pushed-twice|%s|-' % site,
+                                    '%s forwarded %d times'
+                                    % (uid, self.push_n[uid]))
+                named = self.task_by_uid(uid)['pilot']
+                if named:
+                    if pid != named or named not in self.ever:
+                        raise Violation('race-named-pilot|%s|-' % site,
+                                        '%s names %s, bound to %s (ever %s)'
+                                        % (uid, named, pid, sorted(self.ever)))
+                elif pid not in added_any:
+                    raise Violation('race-pilot-not-added|%s|-' % site,
+                                    '%s bound to %s; added before %s, after %s'
+                                    % (uid, pid, sorted(b['added']),
+                                       sorted(self.added)))
+                elif sched == 'bf' and rps.PMGR_ACTIVE not in (
+                        b['pstate'].get(pid), self.pstate.get(pid)):
+                    raise Violation('race-bf-ineligible|%s|-' % site,
+                                    '%s assigned to %s (state %s -> %s)'
+                                    % (uid, pid, b['pstate'].get(pid),
+                                       self.pstate.get(pid)))
+                td = t['description']
+                self.used[pid] += td['ranks'] * td['cores_per_rank']
+                self.pushed[uid] = pid
+        pl = self.net.pub_log
+        while self.n_p < len(pl):
+            ch, _, msg = pl[self.n_p]
+            self.n_p += 1
+            if ch == rpc.STATE_PUBSUB and msg.get('cmd') == 'update':
+                for t in msg['arg']:
+                    if t['state'] == rps.FAILED:
+                        self.failed.add(t['uid'])
+
+        def eligible():
+            if sched == 'rr':
+                return sorted(self.added)
+            return [p for p in sorted(self.added)
+                    if self.pstate.get(p) == rps.PMGR_ACTIVE and
+                       self.used[p] < HWM]
+        for uid in self.submitted:
+            t = self.task_by_uid(uid)
+            if uid in self.pushed:
+                continue
+            if uid in self.failed:
+                # failed with an eligible pilot both before and after?
+                if not t['pilot'] and eligible() and \
+                   (b['added'] if sched == 'rr' else
+                    [p for p in b['added']
+                     if b['pstate'].get(p) == rps.PMGR_ACTIVE]):
+                    raise Violation('race-failed-with-eligible-pilot|%s|-'
+                                    % site, '%s FAILED, eligible %s'
+                                    % (uid, eligible()))
+                continue
+            if t['pilot']:
+                if t['pilot'] in self.added:
+                    raise Violation('race-named-waits|%s|-' % site,
+                                    '%s waits although %s is added'
+                                    % (uid, t['pilot']))
+            elif eligible():
+                raise Violation('race-waits-with-eligible-pilot|%s|-' % site,
+                                '%s waits, eligible pilots %s; exceptions %s'
+                                % (uid, eligible(), self.raised))
+        if sched == 'bf':
+            for pid in self.ever:
+                mine = [u for u, p in self.pushed.items() if p == pid
+                        and not self.task_by_uid(u)['pilot']]
+                if mine and all(u in self.final for u in mine):
+                    info = self.s._pilots[pid]['info']
+                    if info.get('used', 0) != 0:
+                        raise Violation('race-bf-used-not-zero|%s|-' % site,
+                                        'pilot %s: all tasks final, used=%s'
+                                        % (pid, info.get('used')))
+
     def apply(self, ev):
         self.trace.append(ev)
         kind = ev[0]
@@ -393,6 +505,113 @@ def build(scn, hist):
     return w
 
 
+# ------------------------------------------------------------------------------
+# two handlers at once (engine B): the component's worker thread runs work()
+# while a subscriber thread handles a control or state message.  After a
+# sequential prefix the two events of a pair run as controlled threads; every
+# schedule within the delay bound is executed and the end state is judged by
+# the clauses which do not depend on the order of the two (a task is forwarded
+# at most once, to its named pilot or to a pilot which was added at some point
+# of the race and not removed before it; nobody is left waiting or failed
+# while an eligible pilot exists; backfilling's usage returns to zero).
+#
+def race_pairs():
+    sub1, sub2 = ('submit', 1), ('submit', 2)
+    out = list()
+    for prefix in ((), (('add', 'p1'),), (('add', 'p1'), ('add', 'p2')),
+                   (('add', 'p1'), ('pstate', 'p1', rps.PMGR_ACTIVE)),
+                   (('add', 'p1'), ('add', 'p2'),
+                    ('pstate', 'p1', rps.PMGR_ACTIVE),
+                    ('pstate', 'p2', rps.PMGR_ACTIVE)),
+                   (('submit', 1),), (('submit', 2),),
+                   (('submit', 1), ('add', 'p1')),
+                   (('add', 'p1'), ('pstate', 'p1', rps.PMGR_ACTIVE),
+                    ('submit', 2))):
+        for a in (sub1, sub2):
+            for b in (('add', 'p1'), ('add', 'p2'), ('remove', 'p1'),
+                      ('pstate', 'p1', rps.PMGR_ACTIVE),
+                      ('pstate', 'p1', rps.DONE),
+                      ('add2', 'p1', 'p2'), ('tfinal', 't0')):
+                out.append((prefix, a, b))
+        # two subscriber threads
+        for a, b in ((('add', 'p2'), ('pstate', 'p1', rps.PMGR_ACTIVE)),
+                     (('add', 'p2'), ('pstate', 'p1', rps.DONE)),
+                     (('remove', 'p1'), ('pstate', 'p1', rps.PMGR_ACTIVE)),
+                     (('add', 'p2'), ('tfinal', 't0')),
+                     (('pstate', 'p1', rps.DONE), ('tfinal', 't0'))):
+            out.append((prefix, a, b))
+    return out
+
+
+def _race_job(args):
+    from rpmc import clientrace, sched as rs
+    from radical.pilot.tmgr.scheduler.base import TMGRSchedulingComponent
+    scn_name, prefix, ev_a, ev_b, bound = args
+    scn  = [x for x in scenarios(True) if x['name'] == scn_name][0]
+    part = report.Part()
+    cls  = {'rr': RoundRobin, 'bf': Backfilling}[scn['sched']]
+
+    # is the pair enabled after the prefix (API validity), sequentially fine?
+    try:
+        w0 = build(scn, prefix)
+        if ev_a not in w0.enabled() or ev_b not in w0.enabled():
+            return part.dump()
+        if ev_a[0] == 'submit' and ev_b[0] == 'submit':
+            return part.dump()
+    except Violation:
+        return part.dump()
+
+    def make_world(s):
+        w = build(scn, prefix)
+        clientrace.control_locks(s, w.s, ['_pilots_lock', '_tasks_lock',
+                                          '_wait_lock'])
+        w.before = dict(added=set(w.added), removed=set(w.removed),
+                        pstate=dict(w.pstate), ever=set(w.ever))
+        w.bodies = [(ev[0] + str(i), w.handler(ev))
+                    for i, ev in enumerate((ev_a, ev_b))]
+        return w
+
+    replay = {'race': [scn_name, [list(e) for e in prefix], list(ev_a),
+                       list(ev_b)]}
+
+    def judge(w, s, res):
+        rp_ = dict(replay, schedule=list(s.choices))
+        for t in s.threads:
+            if t.exc is not None:
+                w.raised.append((t.name, repr(t.exc)))
+        try:
+            if res != 'done':
+                raise Violation('race-%s|%s+%s|-' % (res, ev_a[0], ev_b[0]),
+                                'threads did not finish: %s' % res)
+            w.observe_race(ev_a, ev_b)
+        except Violation as v:
+            part.violation('%s:%s' % (v.key, scn['sched']),
+                           {'what': v.what, 'scenario': scn['name'],
+                            'prefix': list(prefix), 'pair': [ev_a, ev_b],
+                            'raised': w.raised}, rp_)
+        part.outcome((scn['sched'], 'race', ev_a, ev_b,
+                      tuple(sorted(w.pushed.items())),
+                      tuple(sorted(w.failed))))
+
+    traced = [cls.work, cls._schedule_tasks if hasattr(cls, '_schedule_tasks')
+              else cls.work, cls.add_pilots, cls.remove_pilots,
+              cls.update_pilots, cls.update_tasks,
+              TMGRSchedulingComponent._base_control_cb
+              if hasattr(TMGRSchedulingComponent, '_base_control_cb')
+              else TMGRSchedulingComponent._control_cb,
+              TMGRSchedulingComponent._base_state_cb,
+              TMGRSchedulingComponent._update_pilot_states,
+              TMGRSchedulingComponent.work
+              if 'work' in TMGRSchedulingComponent.__dict__ else cls.work]
+    traced = [f for f in traced if hasattr(f, '__code__')]
+    n, capped = clientrace.explore(make_world, lambda w: w.bodies, traced,
+                                   bound, judge, max_exec=20000)
+    if capped:
+        part.cap('race %s: %d schedules left' % (replay, capped))
+    part.cover(executions=n, race_pairs=1, traces_validated_against_impl=n)
+    return part.dump()
+
+
 def bfs(scn, depth, part):
     seen  = dict()
     w0    = World(scn)
@@ -471,6 +690,14 @@ def run(ctx):
     _depth = 6 if ctx.quick else 8
     for res in seams.pmap(_job, range(len(_scns)), ctx.workers):
         ctx.merge(res)
+    bound = 1 if ctx.quick else 2
+    names = ['rr/u1u1u1', 'bf/u1u1u1', 'rr/n1u1n1', 'bf/n1u1n1']
+    if not ctx.quick:
+        names += ['rr/u4u4u4u1', 'bf/u4u4u4u1', 'rr/n2n2u1', 'bf/n2n2u1']
+    jobs  = [(n, p, a, b, bound) for n in names for p, a, b in race_pairs()]
+    for res in seams.pmap(_race_job, jobs, ctx.workers):
+        ctx.merge(res)
+    ctx.set(race_delay_bound=bound)
     ctx.set(depth=_depth,
             rule='BFS over event histories (submit 1|2 tasks, add/remove '
                  'p1|p2, add both pilots in one command, pilot state LAUNCHING|ACTIVE|DONE, task final) to '
